@@ -48,6 +48,7 @@ func (c08) Gen(r *Rng, tier string, run int) *Trace {
 	s0 := g.addStack(g.kind(), cap)
 	s1 := g.addStack(g.kind(), 0)
 	c2 := g.addCond("kw", 1, vStr("ex"))
+	c2b := g.addCond("kw", 1, vStr("ex")) // same keyword and operator: IsEqual gets as far as the expressions
 	for _, o := range []string{"SetNegativeIndices", "SetForwardIndices"} {
 		if r.Bool(0.5) {
 			g.emit(Op{Obj: s0, M: o, Args: []Val{vBool(true)}}, true)
@@ -76,6 +77,33 @@ func (c08) Gen(r *Rng, tier string, run int) *Trace {
 	parent := g.addStack(g.kind(), 0)
 	g.emit(Op{Obj: parent, M: "Push", Args: []Val{g.plain(), vRef(s0, r.Intn(nDress)), vRef(c2, r.PickInt(dNative, dAlias, dPtrNative))}}, true)
 	awk := func() Val { return vAwk(r.Intn(nAwk)) }
+	// a mirror stack receives every mutator s0 receives, so that IsEqual(s0, mirror)
+	// walks over two independent copies of whatever awkward content s0 now holds
+	mirror := g.addStack(g.tr.Objs[s0].Kind, g.tr.Objs[s0].Cap)
+	for _, op := range append([]Op(nil), g.tr.Setup...) {
+		if op.Obj == s0 {
+			m := op
+			m.Obj = mirror
+			g.emit(m, true)
+		}
+	}
+	emit0 := func(op Op) {
+		g.emit(op, false)
+		if op.Obj == s0 && op.Tag != "hq" && op.Tag != "hc" && op.Tag != "hu" {
+			m := op
+			m.Obj = mirror
+			m.Tag = "m"
+			// the mirror gets the SIBLING of some awkward values (a map of the
+			// same type and length with another key): comparable, not equal
+			m.Args = append([]Val(nil), op.Args...)
+			for i, a := range m.Args {
+				if a.K == "awk" && (a.I == 8 || a.I == 27) && r.Bool(0.5) {
+					m.Args[i] = vAwk(int(8 + 27 - a.I))
+				}
+			}
+			g.emit(m, false)
+		}
+	}
 	n := r.Range(3, 25)
 	for i := 0; i < n; i++ {
 		L := g.lenOf(s0)
@@ -90,25 +118,25 @@ func (c08) Gen(r *Rng, tier string, run int) *Trace {
 				if r.Bool(0.2) {
 					op.Args = append(op.Args, vRef(c2, r.Intn(nDress)))
 				}
-				g.emit(op, false)
+				emit0(op)
 			case 3:
-				g.emit(Op{Obj: s0, M: "Pop"}, false)
+				emit0(Op{Obj: s0, M: "Pop"})
 			case 4:
-				g.emit(Op{Obj: s0, M: "Insert", Args: []Val{g.plain(), vInt(r.Range(0, L))}}, false)
+				emit0(Op{Obj: s0, M: "Insert", Args: []Val{g.plain(), vInt(r.Range(0, L))}})
 			case 5:
 				if L > 0 {
-					g.emit(Op{Obj: s0, M: "Remove", Args: []Val{vInt(r.Intn(L))}}, false)
+					emit0(Op{Obj: s0, M: "Remove", Args: []Val{vInt(r.Intn(L))}})
 				}
 			case 6:
 				if L > 0 {
-					g.emit(Op{Obj: s0, M: "Replace", Args: []Val{g.plain(), vInt(r.Intn(L))}}, false)
+					emit0(Op{Obj: s0, M: "Replace", Args: []Val{g.plain(), vInt(r.Intn(L))}})
 				}
 			case 7:
 				if r.Bool(0.5) {
-					g.emit(Op{Obj: s0, M: "Reverse"}, false)
+					emit0(Op{Obj: s0, M: "Reverse"})
 				} else {
 					// setting or clearing an index option that may already be in that state
-					g.emit(Op{Obj: s0, M: r.PickStr("SetNegativeIndices", "SetForwardIndices"), Args: []Val{vBool(r.Bool(0.4))}}, false)
+					emit0(Op{Obj: s0, M: r.PickStr("SetNegativeIndices", "SetForwardIndices"), Args: []Val{vBool(r.Bool(0.4))}})
 				}
 			}
 			continue
@@ -116,15 +144,15 @@ func (c08) Gen(r *Rng, tier string, run int) *Trace {
 		// a hostile request
 		switch r.Intn(22) {
 		case 0, 1:
-			g.emit(Op{Obj: s0, M: "Index", Args: []Val{vInt(hostileInts(L, r))}, Tag: "hq"}, false)
+			emit0(Op{Obj: s0, M: "Index", Args: []Val{vInt(hostileInts(L, r))}, Tag: "hq"})
 		case 2, 3:
-			g.emit(Op{Obj: s0, M: "Remove", Args: []Val{vInt(hostileInts(L, r))}, Tag: "h"}, false)
+			emit0(Op{Obj: s0, M: "Remove", Args: []Val{vInt(hostileInts(L, r))}, Tag: "h"})
 		case 4, 5:
-			g.emit(Op{Obj: s0, M: "Replace", Args: []Val{g.plain(), vInt(hostileInts(L, r))}, Tag: "h"}, false)
+			emit0(Op{Obj: s0, M: "Replace", Args: []Val{g.plain(), vInt(hostileInts(L, r))}, Tag: "h"})
 		case 6, 7:
-			g.emit(Op{Obj: s0, M: "Swap", Args: []Val{vInt(hostileInts(L, r)), vInt(hostileInts(L, r))}, Tag: "h"}, false)
+			emit0(Op{Obj: s0, M: "Swap", Args: []Val{vInt(hostileInts(L, r)), vInt(hostileInts(L, r))}, Tag: "h"})
 		case 8:
-			g.emit(Op{Obj: s0, M: "Insert", Args: []Val{g.plain(), vInt(hostileInts(L, r))}, Tag: "h"}, false)
+			emit0(Op{Obj: s0, M: "Insert", Args: []Val{g.plain(), vInt(hostileInts(L, r))}, Tag: "h"})
 		case 9:
 			op := Op{Obj: s0, M: "Traverse", Tag: "hq"}
 			for k := r.Range(0, 3); k > 0; k-- {
@@ -132,30 +160,30 @@ func (c08) Gen(r *Rng, tier string, run int) *Trace {
 			}
 			g.emit(op, false)
 		case 10:
-			g.emit(Op{Obj: s0, M: "Less", Args: []Val{vInt(hostileInts(L, r)), vInt(hostileInts(L, r))}, Tag: "hq"}, false)
+			emit0(Op{Obj: s0, M: "Less", Args: []Val{vInt(hostileInts(L, r)), vInt(hostileInts(L, r))}, Tag: "hq"})
 		case 11, 12:
 			op := Op{Obj: s0, M: "Push", Args: []Val{awk()}, Tag: "h"}
 			if r.Bool(0.3) {
 				op.Args = append(op.Args, awk())
 			}
-			g.emit(op, false)
+			emit0(op)
 		case 13:
-			g.emit(Op{Obj: s0, M: "Insert", Args: []Val{awk(), vInt(r.Range(-1, L+1))}, Tag: "h"}, false)
+			emit0(Op{Obj: s0, M: "Insert", Args: []Val{awk(), vInt(r.Range(-1, L+1))}, Tag: "h"})
 		case 14:
 			if L > 0 {
-				g.emit(Op{Obj: s0, M: "Replace", Args: []Val{awk(), vInt(r.Intn(L))}, Tag: "h"}, false)
+				emit0(Op{Obj: s0, M: "Replace", Args: []Val{awk(), vInt(r.Intn(L))}, Tag: "h"})
 			}
 		case 15:
-			g.emit(Op{Obj: s0, M: "Transfer", Args: []Val{awk()}, Tag: "h"}, false)
+			emit0(Op{Obj: s0, M: "Transfer", Args: []Val{awk()}, Tag: "h"})
 		case 16:
-			g.emit(Op{Obj: s0, M: "IsEqual", Args: []Val{[]Val{awk(), vRef(s1, r.Intn(nDress)), vRef(c2, 0)}[r.Intn(3)]}, Tag: "hq"}, false)
+			emit0(Op{Obj: s0, M: "IsEqual", Args: []Val{[]Val{awk(), vRef(s1, r.Intn(nDress)), vRef(c2, 0), vRef(mirror, r.Intn(nDress)), vRef(mirror, 0)}[r.Intn(5)]}, Tag: "hq"})
 		case 17:
 			m := r.PickStr("SetDelimiter", "SetEncap", "SetSymbol", "SetLogger")
 			a := awk()
 			if m == "SetEncap" && r.Bool(0.4) {
 				a = vStrs() // an empty pair
 			}
-			g.emit(Op{Obj: s0, M: m, Args: []Val{a}, Tag: "hu"}, false)
+			emit0(Op{Obj: s0, M: m, Args: []Val{a}, Tag: "hu"})
 		case 18:
 			// condition-side hostile setters
 			switch r.Intn(4) {
@@ -164,10 +192,11 @@ func (c08) Gen(r *Rng, tier string, run int) *Trace {
 			case 1:
 				g.emit(Op{Obj: c2, M: "SetOperator", Args: []Val{[]Val{vNil(), {K: "uop", S: ""}, {K: "uop", S: "~", D: 1}, vOp(0), vOp(9)}[r.Intn(5)]}, Tag: "hc"}, false)
 			case 2:
-				g.emit(Op{Obj: c2, M: "SetErr", Args: []Val{vErr("")}, Tag: "hc"}, false)
-				g.emit(Op{Obj: c2, M: "SetExpression", Args: []Val{awk()}, Tag: "hc"}, false)
+				c := []int{c2, c2b}[r.Intn(2)]
+				g.emit(Op{Obj: c, M: "SetErr", Args: []Val{vErr("")}, Tag: "hc"}, false)
+				g.emit(Op{Obj: c, M: "SetExpression", Args: []Val{awk()}, Tag: "hc"}, false)
 			case 3:
-				g.emit(Op{Obj: c2, M: "IsEqual", Args: []Val{[]Val{awk(), vRef(s0, 0), vRef(c2, r.Intn(nDress))}[r.Intn(3)]}, Tag: "hc"}, false)
+				g.emit(Op{Obj: c2, M: "IsEqual", Args: []Val{[]Val{awk(), vRef(s0, 0), vRef(c2, r.Intn(nDress)), vRef(c2b, r.Intn(nDress)), vRef(c2b, 0)}[r.Intn(5)]}, Tag: "hc"}, false)
 			}
 		default:
 			// queries over whatever the stack now holds
